@@ -227,13 +227,70 @@ def order(ctx):
     res = RuleResult("R-WTORDER", "for tables whose cells are written only on change (FAT, MiniFAT, MiniFAT start) the file write precedes the in-memory update at every store site: a failed write leaves memory no further than the file, so a retried flush writes the cell again")
     n = 0
     for o in getattr(base, "orders", []):
-        if o["field"] not in first:
+        why_ = first.get(o["field"])
+        if why_ is None and re.search(r"\.(left_sibling|right_sibling|child)$", o["op"]):
+            why_ = first.get("%s@%s" % (o["field"], o["function"]))      # link stores of one listed function
+        if why_ is None:
             continue
         n += 1
         key = "R-WTORDER/%s/%s/%s" % (o["function"], o["field"], o["op"])
         if o["order"] == "precedes":
             res.ok({"function": o["function"], "store": o["field"] + " " + o["op"], "order": "file write first"}, nontrivial=True)
         else:
-            res.fail(Finding("R-WTORDER", key + "/memory-updated-before-file", "%s is updated in memory (%s) before the matching file write: if that write fails the call reports the error, but a retry finds the cell already set in memory and never writes it, so a later flush returns Ok for data the file does not link (%s)" % (o["field"], o["op"], first[o["field"]]), o["fn"], o["span"]))
+            res.fail(Finding("R-WTORDER", key + "/memory-updated-before-file", "%s is updated in memory (%s) before the matching file write: if that write fails the call reports the error, but a retry finds the cell already set in memory and never writes it, so a later flush returns Ok for data the file does not link (%s)" % (o["field"], o["op"], why_), o["fn"], o["span"]))
     res.floor("write-on-change store sites", n, ctx.table("floors").get("wtorder_sites", 0))
     return res
+
+
+def reverse(pid):
+    """R-TW (the converse of R-WT for the directory links): a link field that is patched in the FILE in place
+    (seek_within_dir_entry(id, 68 / 72 / 76) + write_le_u32(v)) gets the same value in the cached entry, in the same
+    function.  A file patch without the cache update leaves the live object walking the old link (into a slot that is
+    about to be released) while the file says something else - and the next whole-entry rewrite of that entry puts the
+    stale link back into the file."""
+    from dataflow import forward_taint
+
+    def run(ctx):
+        res = RuleResult("R-TW(%s)" % pid, "every in-place file patch of a sibling / child link in the directory layer is accompanied, in the same function, by the store of the same value into the cached entry's same link")
+        offsets = {68: "left_sibling", 72: "right_sibling", 76: "child"}
+        accessors = ctx.table("reloc").get("entry_accessors", [])
+        n = 0
+        for f in ctx.fx.fns.values():
+            if not f.path.startswith("internal::directory::"):
+                continue
+            v = view(ctx, f)
+            pg = v.pg
+            pr = Prov(f)
+            stores = []
+            for a in [c for c in v.calls.values() if c.name in accessors and c.name.endswith("_mut") and len(c.term["args"]) > 1]:
+                refs = forward_taint(f, {a.term["dest"]["local"]})
+                for bb, blk in enumerate(f.blocks):
+                    if blk["cleanup"]:
+                        continue
+                    for i, st in enumerate(blk["stmts"]):
+                        if st["s"] == "assign" and st["place"]["local"] in refs and st["place"]["proj"] and st["place"]["proj"][-1].get("p") == "field" and st["place"]["proj"][-1].get("name") in offsets.values():
+                            stores.append((pr.operand(a.term["args"][1]), st["place"]["proj"][-1]["name"], pr._def((bb, i, st), 0, ()), ("s", bb, i)))
+            err_all = set(v.all_err_nodes())
+            for bb, c in sorted(v.calls.items()):
+                if not c.name.endswith("write_le_u32") or len(c.term["args"]) < 2:
+                    continue
+                m = re.search(r"seek_within_dir_entry\(param:self,(.*),const:(\d+)\)", pr.operand(c.term["args"][0]))
+                if not m or int(m.group(2)) not in offsets:
+                    continue
+                n += 1
+                idv, fld, val = m.group(1), offsets[int(m.group(2))], pr.operand(c.term["args"][1])
+                cands = {nd for (i2, f2, v2, nd) in stores if i2 == idv and f2 == fld and v2 == val}
+                key = "R-TW/%s/%s" % (f.path, fld)
+                if not cands:
+                    res.fail(Finding(res.rule, key + "/file-patched-cache-not", "%s patches the %s link of entry %s in the file (line %d) and never stores the same value into the cached entry: the live object keeps following the old link" % (f.path.split("::")[-1], fld.split("_")[0], idv[:40], c.line), f, c.term["span"]))
+                    continue
+                before = ("t", bb) not in pg.reach([pg.entry()], cands)
+                after_reach = pg.reach_after(("t", bb), cands | err_all)
+                after = not any(r in after_reach for r in pg.returns())
+                if before or after:
+                    res.ok({"function": f.path, "link": fld, "entry": idv[:40], "cache_store": "precedes" if before else "follows on every Ok path"}, nontrivial=True)
+                else:
+                    res.fail(Finding(res.rule, key + "/cache-store-not-on-all-paths", "%s patches the %s link of entry %s in the file (line %d); the matching store into the cached entry is not on every path" % (f.path.split("::")[-1], fld.split("_")[0], idv[:40], c.line), f, c.term["span"]))
+        res.floor("in-place link patches", n, ctx.table("floors").get("tw_sites", 0))
+        return res
+    return run
